@@ -3,7 +3,7 @@
 # Applies a seeded change to /repo, runs the check, and reverts /repo (git checkout -- .) whatever happens.
 # Prints DETECTED / MISSED / MACHINERY. Never commits anything.
 set -u
-patch="$1"; id="$2"; tier="${3:-quick}"
+patch="$(readlink -f "$1")"; id="$2"; tier="${3:-quick}"
 cd /repo || exit 2
 if ! git diff --quiet; then echo "/repo has uncommitted changes; refusing"; exit 2; fi
 if ! git apply --check "$patch" 2>/dev/null; then echo "PATCH-DOES-NOT-APPLY $patch"; exit 3; fi
